@@ -60,10 +60,21 @@ class C16(Prop):
 
     def _compose(self, rng):
         C = rng.choice((8, 16, 33, 64))
-        kind = rng.choice(("noise", "planted", "equal"))
+        kind = rng.choice(("noise", "planted", "equal", "tied"))
         def vec():
             if kind == "equal":
                 return [5.0] * C
+            if kind == "tied":
+                # most channels exactly at the median (zero MAD on one or both sides) and outliers of DIFFERENT
+                # magnitude below and above it: each side has its own fall-back scale
+                v = [4.0] * C
+                lo = rng.sample(range(C), rng.randint(1, max(1, C // 8)))
+                hi = [i for i in rng.sample(range(C), rng.randint(1, max(1, C // 8))) if i not in lo]
+                for i in lo:
+                    v[i] = 4.0 - rng.choice((0.5, 1.0, 3.0))
+                for i in hi:
+                    v[i] = 4.0 + rng.choice((8.0, 60.0, 500.0))
+                return v
             v = [rng.gauss(10, 1) for _ in range(C)]
             if kind == "planted":
                 for _ in range(rng.randint(1, 3)):
